@@ -116,6 +116,34 @@ def fam_flat_body(ctx, fkind, bkind, shape, fr_name, perm, through, dname, wname
                         'C02:get_segment_from_point_list endpoints are not among its points')
 
 
+def fam_pivot(ctx, fkind, bkind, shape, fr_name, vi, ufix, swap):
+    """a 1-D flat rotating about a vertex of the body: every parameter value (hence every path witness that is
+    replayed with floats) has the flat passing exactly through the vertex, in a direction that is not special"""
+    Kc, K, dirs, pts = (setup_body if bkind == 'ConvexPolyhedron' else setup_poly)(shape, fr_name, None)
+    P0 = Kc.verts[vi % len(Kc.verts)]
+    centre = Kc.centre
+    n = dirs['normal']
+    d0 = R.vadd(R.vsub(centre, P0), R.vscale(F(1, 2), _scale_to(n, F(2))))      # from the vertex into / across the body
+    w = _scale_to(dirs['edge'], F(1))
+    t = ctx.param('t', -2, 2)
+    d = R.affine(d0, (t, w))
+    f = _one(fkind, R.affine(P0, (-F(ufix), d)), d)
+    A, Bq = (K, f) if swap else (f, K)
+    R.band_flat_body(ctx, f, K, Kc)
+    y, y_in = D.declare_probe(ctx, A, Bq)
+    a, b = mk(ctx, A), mk(ctx, Bq)
+    sig = 'C02:intersection(%s,%s)' % (A.kind, Bq.kind)
+    st, r = call(lambda: G.intersection(a, b))
+    if st == 'raise':
+        ctx.outcome('raise')
+        ctx.fail(sig + ' raises %s' % exc_sig(r), repr(r))
+    ctx.outcome(kind_of(r))
+    D.check_result(ctx, A, Bq, r, y, y_in, sig)
+
+
+EXTRA_WITNESSES = {'quick': 6, 'thorough': 12}
+
+
 def families(tier, seed):
     import random
     rng = random.Random(seed)
@@ -164,6 +192,17 @@ def families(tier, seed):
             swap = (ti + bi) % 2 == 0
             fams.append(Family('Plane/%s/%s-%s-%s/%s' % (tag, through, dname, wname, 'swap' if swap else 'fwd'),
                                fam_flat_body, ('Plane', bkind, shape, fr_name, perm, through, dname, wname, swap, False)))
+    # flats through a vertex in non-special directions (float rounding of the hit point matters here)
+    piv = [('ConvexPolygon', 'tri', 'oblique'), ('ConvexPolygon', 'quad', 'pyth3'), ('ConvexPolyhedron', 'tetra', 'oblique')]
+    if tier == 'thorough':
+        piv += [('ConvexPolygon', 'penta', 'oblique'), ('ConvexPolygon', 'hexa', 'pyth3'), ('ConvexPolyhedron', 'cube', 'oblique'),
+                ('ConvexPolyhedron', 'pyramid', 'pyth3'), ('ConvexPolyhedron', 'octa', 'oblique')]
+    for bi, (bkind, shape, fr_name) in enumerate(piv):
+        for fkind, uf in (('Line', F(3, 4)), ('Segment', F(1, 2)), ('HalfLine', F(3, 4))):
+            for vi in ((bi, bi + 1) if tier == 'quick' else range(4)):
+                swap = (vi + bi) % 2 == 1
+                fams.append(Family('pivot/%s/%s-%s@%s/vertex%d/%s' % (fkind, bkind[6:], shape, fr_name, vi, 'swap' if swap else 'fwd'), fam_pivot,
+                                   (fkind, bkind, shape, fr_name, vi, uf, swap), budget_s=None))
     return fams
 
 
